@@ -18,7 +18,7 @@ Definition fl (code act : N) (a b : Z) : list failure := [mkFail code act a b].
 Definition has_slash (s : str) : bool := existsb (N.eqb 47) s.
 Definition classify_method (rpc : option N) (m : str) : mstat :=
   match rpc with
-  | Some r => if r <? 24 then MOk else MUnknown
+  | Some r => if r <? 128 then MOk else MUnknown     (* the harness registers methods <shape>0 .. <shape>127 *)
   | None =>
       let m' := match m with 47 :: r => r | _ => m end in
       if has_slash m' then MUnknown else MMalformed
